@@ -106,6 +106,8 @@ def prove(goal, assumptions=(), timeout=60.0, variants=None, cross=None, bitprec
             if v['abstract'] and tr.nprod > 0:
                 abstract_sat = True; continue      # abstraction too coarse: retry with the real products
             m = s.model(); mv = {}
+            for d in m.decls():       # integer-level inputs of field-level runs (named without '!')
+                if d.arity() == 0 and '!' not in d.name() and z3.is_int_value(m[d]): mv[d.name()] = m[d].as_long()
             for nm, var in tr.vars.items():
                 x = m.eval(var, model_completion=True)
                 mv[nm] = x.as_long()
